@@ -105,6 +105,10 @@ func runC12case(t *vf.T, c c12case) {
 		t.Inconclusive("watchdog in base run")
 		return
 	}
+	if (out.RunErr != nil || out.ScanErr != nil) && out.Panic == nil && ls.lossesNotCausedByMonitor(0, true) {
+		t.Count("operations_judged_as_after_a_loss_not_caused_by_the_monitor", 1)
+		return
+	}
 	if out.RunErr != nil || out.ScanErr != nil || out.Panic != nil {
 		t.Violate("base-run-failed exec="+ex, fmt.Sprintf("run: %v scan: %v panic: %v | %s | library log: %s", out.RunErr, out.ScanErr, out.Panic, specString(&base), logTail(12)))
 		return
@@ -114,9 +118,22 @@ func runC12case(t *vf.T, c c12case) {
 		return
 	}
 	results := []*c12result{{res: out.Res, want: want0}}
-	killed := false
-	var wg sync.WaitGroup
 	var mu sync.Mutex
+	killed := false
+	nkilled := 0 // machines killed by this monitor
+	// envLoss: the executor lost a machine that the monitor did not kill (keepalive timeout on a
+	// starved host): from then on the session is in a machine-loss scenario like after a kill
+	envLoss := func(settle bool) bool {
+		mu.Lock()
+		n := nkilled
+		mu.Unlock()
+		if ls.lossesNotCausedByMonitor(n, settle) {
+			t.Count("operations_judged_as_after_a_loss_not_caused_by_the_monitor", 1)
+			return true
+		}
+		return false
+	}
+	var wg sync.WaitGroup
 	violate := func(sig, what string) {
 		mu.Lock()
 		defer mu.Unlock()
@@ -154,6 +171,9 @@ func runC12case(t *vf.T, c c12case) {
 				mu.Lock()
 				dmg := r.damaged || killed
 				mu.Unlock()
+				if err != nil && !dmg {
+					dmg = envLoss(true)
+				}
 				if err != nil {
 					if !dmg {
 						violate("scan-error-on-intact-result exec="+ex, fmt.Sprintf("scan %s of result %d failed although nothing was discarded or lost: %v", after, i, err))
@@ -256,6 +276,9 @@ func runC12case(t *vf.T, c c12case) {
 					killed = true
 					mu.Unlock()
 					if ls.Sys.Kill(nil) {
+						mu.Lock()
+						nkilled++
+						mu.Unlock()
 						t.Count("machines_killed", 1)
 					}
 				}
@@ -288,6 +311,11 @@ func runC12case(t *vf.T, c c12case) {
 						e = o.ScanErr
 					}
 					if killed && isGiveUp(e) {
+						t.Count("give_ups_after_kill", 1)
+						return
+					}
+					if envLoss(true) {
+						// a machine was lost without the monitor's doing: an error is an acceptable outcome
 						t.Count("give_ups_after_kill", 1)
 						return
 					}
